@@ -28,5 +28,5 @@ if [ "$CONFIRM" = "--confirm" ]; then
   if [ "${4:-}" = "--suite" ]; then (cd "$WT" && go test -vet=off -count=1 ./... 2>&1 | grep -v "no test files\|^ok\|pam" | head -20); echo "suite done (only non-ok lines shown above)"; fi
   rm -f /tmp/evalmut-$$.log
 fi
-cd /verif && VERIF_REPLAYS_DIR=/tmp/evalmut-replays VERIF_REPO="$WT" ./check "$PROP" "$TIER" > /tmp/evalmut-$NAME.out 2>&1; RC=$?
+cd /verif && VERIF_REPLAYS_DIR=/tmp/evalmut-replays VERIF_EVIDENCE_DIR=/tmp/evalmut-evidence VERIF_REPO="$WT" ./check "$PROP" "$TIER" > /tmp/evalmut-$NAME.out 2>&1; RC=$?
 echo "== $NAME: check $PROP $TIER exit=$RC"; grep -E "^VIOLATION|signature:|^C[0-9]+ |INCONCLUSIVE" /tmp/evalmut-$NAME.out | head -12
